@@ -61,7 +61,13 @@ def toCase (xs : List Sexp) : Option Case := do
   let h ← (field "h" xs).bind toRes
   let b ← (field "b" xs).bind toRes
   let fc ← (field "fc" xs).bind toRes
-  pure { site, tmpl, kind, hraw, braw, hval, bval, xf, h, b, fc }
+  let optRes := fun (name : String) => ((field name xs).bind toRes).getD .skip
+  let fmtstrip := match field "fmtstrip" xs with
+    | some [.list [.atom "same"]] => Res.skip
+    | some r => (toRes r).getD .skip
+    | none => .skip
+  pure { site, tmpl, kind, hraw, braw, hval, bval, xf, h, b, fc, fcs := optRes "fcs", cy := strField "cy" xs, cys := strField "cys" xs,
+         fmtstrip, math := optRes "math", matb := optRes "matb" }
 
 def stepShape (_ : Unit) (ts : List String) : Unit × String :=
   match ts with
@@ -70,6 +76,9 @@ def stepShape (_ : Unit) (ts : List String) : Unit × String :=
     | some [.list (.atom "r" :: xs)] =>
       match xs with
       | [.list [.atom "skip", .str why]] => ((), s!"ok skipped occ=0 toks=0 nested=0 site=- tmpl=- {why}")
+      | [.list [.atom "opts", .str os]] =>
+        if os == renderOptions exercisedOptions then ((), "ok options occ=0 toks=0 nested=0 site=options tmpl=options")
+        else ((), s!"reject options-mismatch site=options tmpl=options the harness exercises [{os}], the model lists [{renderOptions exercisedOptions}]")
       | _ =>
         match toCase xs with
         | some c => ((), (judge c).render c)
